@@ -19,7 +19,34 @@ FILES = ["Engine/Engine.v", "Engine/Script.v", "Engine/EngineProofs.v", "Engine/
 INF = 10 ** 18
 
 
+def gen_shared(rng):
+    """Directed shape: ONE pending future is yielded directly by one process and is at the same time an input of
+    an any_of / all_of (possibly nested) another process waits on; both are registered (in either order)
+    before a third event resolves the futures one after the other."""
+    e = lambda dt, tgt, typ: dict(dt=dt, target=tgt, type=typ, daemon=False, label=-1, hooks=[])  # noqa: E731
+    comb = rng.choice(["any", "all"])
+    inner = [["f", 0], ["f", 1]]
+    if rng.random() < 0.4:
+        inner = [["f", 2], [rng.choice(["any", "all"]), [["f", 0], ["f", 1]]]]
+    fe = [comb, inner if rng.random() < 0.5 else list(reversed(inner))]
+    d1, d2 = rng.choice([(0, 1000), (1000, 0), (5, 5)])
+    direct = ["gen", [["yield", d1 / 1e9, d1, [], "list"], ["wait", ["f", 0]]], [e(0, 2, 0)]]
+    combo = ["gen", [["yield", d2 / 1e9, d2, [], "list"], ["wait", fe]], [e(0, 2, 0)]]
+    order = rng.sample([0, 1, 2], 3)
+    resolver = ["imm", [["eff", ["resolve", f, 10 + f]] for f in order]]
+    if rng.random() < 0.5:       # resolve in two instalments
+        resolver = ["imm", [["eff", ["resolve", order[0], 10 + order[0]]], ["emit", e(1000, 2, 2)]]]
+    prog = [{0: direct}, {0: combo}, {0: ["imm", []], 1: resolver, 2: ["imm", [["eff", ["resolve", f, 20 + f]] for f in order[1:]]]}]
+    pre = [dict(time=0, emit=e(0, 0, 0), cancel=False), dict(time=0, emit=e(0, 1, 0), cancel=False),
+           dict(time=rng.choice([2000, 5000]), emit=e(0, 2, 1), cancel=False)]
+    if rng.random() < 0.5:
+        pre[0], pre[1] = pre[1], pre[0]
+    return dict(prog=prog, pre=pre, start=0, end=None, fuel=150, pre_mode="single", pre_order=[0, 1, 2], ctor="end_time")
+
+
 def gen(rng):
+    if rng.random() < 0.2:
+        return gen_shared(rng)
     for _ in range(50):
         c = es.gen_script(rng, futures=True, max_pre=8)
         if any(b[0] == "gen" for t in c["prog"] for b in t.values()):
